@@ -31,3 +31,9 @@ def main : IO Unit := do
   for e in stuck do
     IO.println s!"cycle-edge: {mutexName e.1} -> {mutexName e.2} via {hops e.1 e.2}"
   IO.println s!"dynamic: {((dynamicUnderLock T).map (·.1)).eraseDups}"
+  IO.println s!"hint-exact: {norm ((edges T A).map (fun e => e.1 * 1000 + e.2)) == norm ((edges T (acquires T)).map (fun e => e.1 * 1000 + e.2))}"
+  IO.println s!"functions: {T.length}"
+  IO.println s!"mutexes: {Gen.LockOrder.mutexes.length}"
+  IO.println s!"requests: {((List.range T.length).map (fun f => (fnEvs T f).length)).foldl (· + ·) 0}"
+  IO.println s!"edges: {es.map (fun e => mutexName e.1 ++ " -> " ++ mutexName e.2)}"
+  IO.println s!"ranks: {rt.map (fun p => (mutexName p.1, p.2))}"
